@@ -994,6 +994,9 @@ func vOpen(t *testing.T) (*bufio.Writer, func()) {
 		t.Skip("VERIF_OUT not set")
 	}
 	logger.SetLevel(logger.LevelFatal)
+	if os.Getenv("VERIF_LOG") == "error" {
+		logger.SetLevel(logger.LevelError) // debugging aid
+	}
 	f, err := os.Create(out)
 	if err != nil {
 		t.Fatal(err)
